@@ -29,6 +29,8 @@ import (
 
 var baseTime = time.Date(2024, 1, 1, 0, 0, 0, 0, time.UTC)
 
+var recordSeq atomic.Int64
+
 // NoTimeMode: how the oldest version (1) of a record is rendered in the behaviour being replayed -- 0: with its advertisement
 // time like the others, 1: without one, 2: with an unparsable one (such a record is older than any dated one, newer than nothing).
 var NoTimeMode int
@@ -39,6 +41,9 @@ func record(p string, src int, ver int) *model.ProviderInfo {
 		AddrInfo: peer.AddrInfo{ID: ids.Peer(p), Addrs: []multiaddr.Multiaddr{
 			multiaddr.StringCast(fmt.Sprintf("/ip4/9.%d.%d.1/tcp/%d", src, ver, 2000+ver))}},
 		LastAdvertisementTime: baseTime.Add(time.Duration(ver) * time.Hour).Format(time.RFC3339),
+		// status fields that change from one fetch to the next without a new advertisement: a record the cache already holds
+		// (same advertisement time) is not replaced -- and not touched -- by such a fetch
+		Lag: int(recordSeq.Add(1)),
 	}
 	if ver == 1 && NoTimeMode == 1 {
 		pi.LastAdvertisementTime = ""
